@@ -24,6 +24,7 @@ RULE = (
     "distinct by source text (+ bindings)."
 )
 
+CPU_BUDGET_S = 20.0  # per compile() of a bounded text; normal cost is about a millisecond
 FUZZ_RUNS = int(__import__("os").environ.get("VERIF_FUZZ_RUNS", "60000"))
 
 TOKENS = ["1", "0x1F", "1u", "1.5", "1e3", ".5", "'a'", '"b"', "'''c'''", "r'\\d'", "b'x'", "true", "false", "null", "x", "y.z", "_a1", "in", "has", "size",
@@ -59,7 +60,8 @@ def check_compile(run: common.Run, text: str, report) -> None:
     run.event("compile")
     e = cel.env("I")
     try:
-        tree = e.compile(text)
+        with common.cpu_budget(CPU_BUDGET_S):
+            tree = e.compile(text)
         ntok = sum(1 for _ in tree.scan_values(lambda v: True))
         if ntok >= 3:
             run.nt(("c", text))
@@ -78,6 +80,8 @@ def check_compile(run: common.Run, text: str, report) -> None:
             str(ex), repr(ex)
         except Exception as ex2:
             report(f"parse-error-render-{progs.crash_bucket(ex2)}", {"text": text}, f"{type(ex2).__name__}: {ex2}")
+    except common.CpuBudgetExceeded:
+        report(f"compile-does-not-end-within-{int(CPU_BUDGET_S)}s-cpu", {"text": text}, f"compile() of a {len(text)}-character text used more than {CPU_BUDGET_S} s of CPU time")
     except RecursionError:
         report("compile-RecursionError", {"text": text}, "RecursionError")
     except Exception as ex:
@@ -85,9 +89,50 @@ def check_compile(run: common.Run, text: str, report) -> None:
     run.sample({"compile": text[:100]}, bucket="compile")
 
 
+def unterminated_literals(run: common.Run, report) -> None:
+    """Literals that are never closed, holding n escapes: the lexer must reject them in time that does not explode with n. Judged by the ratio of CPU
+    times at n = 12 and n = 22 (an exponential lexer shows a factor of about a thousand, a linear one about two) with an absolute floor, never by a wall clock."""
+    import time
+
+    e = cel.env("I")
+
+    def cost(text: str) -> float:
+        best = 1e9
+        for _ in range(2):
+            t0 = time.process_time()
+            try:
+                with common.cpu_budget(CPU_BUDGET_S):
+                    e.compile(text)
+            except CELParseError:
+                pass
+            except common.CpuBudgetExceeded:
+                return CPU_BUDGET_S
+            except Exception:
+                pass
+            best = min(best, time.process_time() - t0)
+        return best
+
+    for quote in ['"', "'", '"""', "'''"]:
+        for prefix in ["", "r", "b", "br"]:
+            for piece in ["\\377", "\\x41", "\\n", "\\\\", "\\u0041", "\\U00000041", "\\q", "\\" + quote[0], "\\" + ("'" if quote[0] == '"' else '"'), "a"]:
+                run.tick()
+                run.event("unterminated-literal-family")
+                t12 = cost("x + " + prefix + quote + piece * 12 + " y")
+                t22 = cost("x + " + prefix + quote + piece * 22 + " y")
+                run.nt(("unterminated", quote, prefix, piece))
+                if t22 > 0.25 and t22 > 100 * max(t12, 1e-4):
+                    report("compile-time-explodes-with-the-number-of-escapes-in-an-unterminated-literal", {"text": "x + " + prefix + quote + piece * 40 + " y"},
+                           f"{prefix}{quote}{piece}...: {t12:.4f} s of CPU for 12 escapes, {t22:.4f} s for 22")
+                    return
+
+
 def eval_once(src: str, binds: Dict[str, Any], runner: str) -> Tuple[str, str]:
     """('value'|'error'|'parse'|'crash', bucket)"""
-    o, raw = cel.evaluate(src, binds, runner, want_value=True)
+    try:
+        with common.cpu_budget(3 * CPU_BUDGET_S):
+            o, raw = cel.evaluate(src, binds, runner, want_value=True)
+    except common.CpuBudgetExceeded:
+        return "crash", f"does-not-end-within-{int(3 * CPU_BUDGET_S)}s-cpu"
     if o[0] == "value":
         return "value", ""
     if o[0] == "parse_error":
@@ -220,6 +265,9 @@ def main(run: common.Run) -> None:
         "out of domain (counted, not evaluated): macros whose iteration variable is not an identifier, has() of a non-selection, the library's non-standard reduce()/min() macros",
         "CELUnsupportedError / CELSyntaxError are not CELEvalError: if they escape they are reported like any other exception",
         "program depth <= 4 for generated programs (well inside CEL's minimum limits); corpus expressions as they are",
+        "'ends': every compile() runs under a budget of 20 s of CPU time (ITIMER_VIRTUAL: load does not count) and every evaluation under 60 s, four orders of magnitude above the "
+        "normal cost for texts of this size; exceeding it is reported as not ending. The unterminated-literal family is judged by the ratio of CPU times at 12 and 22 escapes (> 100 with a "
+        "floor of 0.25 s), never by a wall clock",
     ]
     for p in common.committed_replays(run.pid):
         doc = common.load_replay(p)
@@ -227,6 +275,7 @@ def main(run: common.Run) -> None:
             run.fail(k, doc["case"], d)
         run.event("replayed")
     package_pass(run, run.fail)
+    unterminated_literals(run, run.fail)
     if run.tier == "quick":
         corpus_pass(run, run.fail, shard=(run.seed % 2, 2))  # half of the corpus per run (seed parity); thorough runs all of it
         campaign(run)
